@@ -396,14 +396,14 @@ class Node:
         """Predecessor or None, if node is first sibling."""
         if self.is_first_sibling():
             return None
-        idx = self._parent._children.index(self)  # pyright: ignore[reportOptionalMemberAccess]
+        idx = Node.get_index(self)
         return self._parent._children[idx - 1]  # pyright: ignore[reportOptionalSubscript]
 
     def next_sibling(self) -> Node | None:
         """Return successor or None, if node is last sibling."""
         if self.is_last_sibling():
             return None
-        idx = self._parent._children.index(self)  # type: ignore
+        idx = Node.get_index(self)
         return self._parent._children[idx + 1]  # type: ignore
 
     def last_sibling(self) -> Node:
@@ -457,7 +457,11 @@ class Node:
 
     def get_index(self) -> int:
         """Return index in sibling list."""
-        return self._parent._children.index(self)  # type: ignore
+        # NOTE: `list.index()` checks for equality ('=='), not identity!
+        for i, n in enumerate(self._parent._children):  # type: ignore
+            if n is self:
+                return i
+        raise ValueError(f"{self} is not a child of its parent")
 
     # --------------------------------------------------------------------------
 
